@@ -323,7 +323,10 @@ pub fn check_automaton_view(ivs: &[(u32, u32)], queries: &[(u32, u32)], o: &mut 
     let a = match crate::runner::catch(|| b.build()) {
         Ok(Ok(a)) => a,
         // whether the builder accepts a specification is C13's subject
-        _ => return,
+        _ => {
+            o.tag("automaton-view-skipped");
+            return;
+        }
     };
     let s0 = a.initial_state();
     let ranges: Vec<(u32, u32)> = s0.char_ranges().map(|r| crate::bisim::bounds_of(r)).collect();
@@ -511,6 +514,24 @@ pub fn run(tape: &[u8], cx: &Cx) -> Outcome {
             CoverResult::CoveredBy(_) => o.tag("query-covered"),
             CoverResult::DisjointFromAll => o.tag("query-disjoint"),
             CoverResult::Overlaps => o.tag("query-overlaps"),
+        }
+    }
+    // "however it was built": the same facts and queries on the partition built by try_from_iter from
+    // the intervals in reverse order (and from_set for a single interval)
+    if o.fails.is_empty() && !ivs.is_empty() {
+        let built = if ivs.len() == 1 && t.flag() {
+            Ok(CharPartition::from_set(&CharSet::range(ivs[0].0, ivs[0].1)))
+        } else {
+            CharPartition::try_from_iter(ivs.iter().rev().map(|&(a, b)| CharSet::range(a, b)))
+        };
+        match built {
+            Ok(q) => {
+                check_partition(&ivs, &q, &chars, &mut o);
+                for &qu in &queries {
+                    check_query(&ivs, &q, qu, &mut o);
+                }
+            }
+            Err(e) => o.fail("C11/try_from_iter/rejects-disjoint", format!("try_from_iter({}) reversed = Err({:?}) although the sets are pairwise disjoint", show_part(&ivs), e)),
         }
     }
     check_from_iter(&list, &mut o);
